@@ -220,6 +220,7 @@ pub fn run_keys(out_path: &str, tier: &str) {
 	// keys generated by rcgen: generate_for every algorithm, generate_rsa_for every size (the latter only exists with aws-lc-rs)
 	#[cfg(feature = "crypto")]
 	{
+		#[allow(unused_mut)]
 		let mut gens: Vec<(&str, u32)> = ALL_ALGS.iter().map(|a| (*a, 0u32)).collect();
 		#[cfg(feature = "awslc")]
 		for a in ["rsa-sha256", "rsa-sha384", "rsa-sha512"] {
@@ -493,7 +494,13 @@ pub fn run_pem(out_path: &str, tier: &str) {
 				},
 				_ => "no",
 			};
-			pem_event("pubkey", alg, &pder, &pt, leq, &case, &mut out);
+			// rcgen's loader of public-key PEM: what it loaded, encoded again, is the DER the text was made from
+			let loaders = match guarded(|| SubjectPublicKeyInfo::from_pem(&pt)) {
+				Outcome::Ok(s) => json!([{"fn": "SubjectPublicKeyInfo::from_pem", "k": "ok", "sameBytes": ktype_of_alg(&alg_name(s.algorithm())) == ktype_of_alg(alg), "samePub": s.der_bytes() == key.kp.public_key_raw()}]),
+				Outcome::Err(e) => json!([{"fn": "SubjectPublicKeyInfo::from_pem", "k": e, "sameBytes": false, "samePub": false}]),
+				Outcome::Panic(m) => json!([{"fn": "SubjectPublicKeyInfo::from_pem", "k": format!("panic: {}", m), "sameBytes": false, "samePub": false}]),
+			};
+			pem_event_full("pubkey", alg, Some(&pder), &pt, leq, loaders, &case, &mut out);
 		}
 	}
 	// private-key PEM of every key origin (OpenSSL PKCS#8 v1, SEC1, PKCS#1, rcgen-generated) after an auto-detecting
